@@ -197,6 +197,15 @@ func subStackScenario(depth int, c int) *explore.Scenario {
 		cancelAt := vs.Choose(n+1, 0, "subscription cancelled while holding message") - 1
 		subCtx, cancelSub := context.WithCancel(context.Background())
 		defer cancelSub()
+		// the inner subscriber may reject the first Subscribe call: the stack reports that error and works as before
+		// for the next call
+		if vs.Choose(2, 0, "inner subscriber rejects the first Subscribe") == 1 {
+			inner.FailSubscribes = 1
+			stack = "(first Subscribe rejected) " + stack
+			if _, err := sub.Subscribe(subCtx, "t"); !stderrors.Is(err, hx.ErrScriptSubscribe) {
+				vs.Fail("transparent", "stack %sinner: the inner subscriber rejected Subscribe, the stack returned %v", stack, err)
+			}
+		}
 		ch, err := sub.Subscribe(subCtx, "t")
 		if err != nil {
 			vs.Fail("subscribe-error", "%v", err)
